@@ -225,7 +225,7 @@ class CParser(RecursiveDescentParser):
                 type_specifier = self.consume(self.type_specifiers)
                 location = type_specifier.loc
                 if typ:
-                    self.error("Type already determined", type_specifier)
+                    self.error("Type already determined", type_specifier.loc)
                 else:
                     type_specifiers.append(type_specifier.val)
             elif self.peek == "enum":
